@@ -12,7 +12,10 @@
  *   area     curve_area(xy, 0) = long-double trapezoid integral; additivity over a split at a knot
  *   simplex  NelderMeadSimplex on strictly convex quadratics (2..6 dimensions, kappa <= 100, random start and steps, also the
  *            default steps): reported value = objective at the returned point (bitwise), <= best initial vertex,
- *            |best - x*| <= 1e-4 (1 + |x*|) with xtol 1e-14 and 20000 iterations; objective evaluations are counted.
+ *            |best - x*| <= 1e-4 (1 + |x*|) with xtol 1e-14 and 20000 iterations; objective evaluations are counted and the
+ *            evaluated points recorded, so that a failure to converge is keyed by its mechanism (budget exhausted /
+ *            stopped early on a simplex with zero objective spread / other).  A lattice family (integer curvatures,
+ *            minimiser, start and steps: exact arithmetic, exact ties between vertices) is part of the generator.
  * Tolerances are C * eps * natural magnitude (sum of the magnitudes of the terms of the identity); maxima are reported in
  * those units. */
 #include "drv_util.h"
@@ -21,9 +24,9 @@
 #define MAXK 40
 
 #define C_TABLE   1000.0    /* table identities, units of eps * sum|terms|                                              */
-#define C_COEF    1000.0    /* b, c, d vs oracle, units of eps * Gw / h^k + sensitivity (see the spline monitor)         */
+#define C_COEF    5000.0    /* b, c, d vs oracle, units of eps * Gw / h^k + sensitivity (see the spline monitor)         */
 #define C_PRED    1000.0    /* predict vs oracle, units of eps * Gw + sensitivity                                        */
-#define C_UNIT    5000.0    /* unit independence, units of eps * Gw + (1 + |x|max / h_min) * sensitivity + eps |x| |S'|   */
+#define C_UNIT   20000.0    /* unit independence, units of eps * Gw + (1 + |x|max / h_min) * sensitivity + eps |x| |S'|   */
 #define C_LINE    2000.0    /* straight line: c, d in units of eps * |slope| / h_min^k                                   */
 #define C_AREA     200.0    /* area, units of N eps sum|base * height|                                                   */
 #define NM_XTOL   1e-14
@@ -302,7 +305,6 @@ static int spline_run(vh_ctx *c, const double *x, const double *y, size_t N, con
       if (!(u <= w_pred)) { w_pred = u; worst_i = i; worst_o = want; worst_den = EPS * T + sn; }
     }
     vh_max("max_predict_vs_oracle_units", w_pred);
-    if (getenv("C19_TRACE") && (w_pred > 5 || w_c > 20 || w_d > 20)) fprintf(stderr, "TRACE case %ld pred %.3g b %.3g c %.3g d %.3g full %d\n", c->idx, w_pred, w_b, w_c, w_d, full);
     if (!(w_pred <= C_PRED)) {
       snprintf(key, sizeof key, "cubic_spline_predict|vs-oracle|%s", cls);
       vh_fail(c, key, "S(%.17g) = %.17g, oracle %.17Lg: %.3g x (eps x term magnitude + sensitivity = %.3Lg) (limit %.0f; %zu knots, h_min %.3Lg)", q[worst_i], yp->data[worst_i], worst_o, w_pred, worst_den, C_PRED, N, o.hmin);
